@@ -62,6 +62,20 @@ def cases(tier, rng):
                 ops += ["recv"]
             out.append("s%d sock REQ / %s" % (k, " / ".join(ops)))
             k += 1
+    # ... and with servers whose connection FAILS ON THE WRITE of a request (first, second or both of three): whatever
+    # the call returns, every request that goes out anywhere is exactly one delimiter + payload
+    for p in payloads[:8]:
+        t = ";".join(W.tok(f) for f in p)
+        for bad in ("a", "b", "ab"):
+            for kind in ("BrokenPipe", "ConnectionReset"):
+                rep = W.tok(W.msg([b"", b"r"]))
+                ops = ["attach a REP", "attach b REP", "attach c REP"] + ["wmode %s broken=%s" % (x, kind) for x in bad]
+                for i in range(6):
+                    ops += ["send " + t, "wire a", "wire b", "wire c"]
+                    ops += ["feed %s %s" % (x, rep) for x in "abc" if x not in bad]
+                    ops += ["recv"]
+                out.append("s%d sock REQ / %s" % (k, " / ".join(ops)))
+                k += 1
     # REP serving requests with DIFFERENT envelopes one after the other, some never answered: every reply carries the
     # envelope of the request it answers (the last one returned), on that requester's connection, nothing elsewhere
     envs = {"a": [fr(5, 21)], "b": [], "c": [fr(1, 22), fr(16, 23)]}
@@ -82,6 +96,10 @@ def cases(tier, rng):
         out.append("h%d sock ROUTER / attach a REQ / feed a %s / recv / send @a;-;%s / wire a" % (k, W.tok(W.msg([b""] + p)), t))
         k += 1
     return out
+
+
+def compare_filter(line):
+    return "wmode" not in line      # the World model's connections accept every write
 
 
 def norm_impl(o, line):
